@@ -16,7 +16,7 @@ Not decided: i64 overflow at last+1; user-provided generators.
 """
 from ..inline import inline_view
 from ..mir import AnchorLost
-from ..util import cmp_truth, df_of, enum_variant_of_operand, operand_path, path_last, one_call, switch_on, switch_edges, in_set, fn_short, uses_of_local
+from ..util import backward_slice, cmp_truth, df_of, enum_variant_of_operand, operand_path, path_last, one_call, switch_on, switch_edges, in_set, fn_short, uses_of_local
 
 GEN = "scylla::policies::timestamp_generator::MonotonicTimestampGenerator"
 TRAIT_M = "scylla::policies::timestamp_generator::TimestampGenerator::next_timestamp"
@@ -227,16 +227,31 @@ def r5(ctx, facts):
                         bad.append(ubb2)
             else:
                 bad.append(ubb)
-        r.instance("fallback-only-in-or_else:" + key, orelse is not None and not bad,
-                   "the generator closure must be used solely as the argument of Option::or_else", p.stmt_span(site[1]))
-        if orelse is None:
+        # the explicit form: `match stmt.get_timestamp() { Some(t) => Some(t), None => generator.map(|g| g.next_timestamp()) }`
+        gts = [c for c in p.calls() if False]
+        gts = [c for bbx, c in p.calls() if bbx in p.live_blocks and "get_timestamp" in ((c.callee.get("def") or "") + (c.callee.get("res") or ""))]
+        explicit = None
+        if orelse is None and len(bad) == 1 and gts:
+            ub = bad[0]
+            stt = df.state_in.get(ub) or {}
+            none_known = any(in_set(stt.get(("disc", df.disc_root((gc.dest[0], ())))), {0}) or in_set(stt.get(("disc", (gc.dest[0], ()))), {0}) for gc in gts)
+            if none_known and p.term(ub)[0] == "call":
+                explicit = ub
+        r.instance("fallback-only-in-or_else:" + key, (orelse is not None and not bad) or explicit is not None,
+                   "the generator closure must be used solely as the lazily evaluated fallback of the statement's own timestamp (Option::or_else, or a call in the `get_timestamp() == None` region)", p.stmt_span(site[1]))
+        if orelse is None and explicit is None:
             continue
-        oc = p.term(orelse)
-        recv = df.expr_of_operand(oc[2][0])
-        ok = recv[0] == "call" and (p.term(recv[1])[1].get("def", "") + p.term(recv[1])[1].get("res", "")).find("get_timestamp") >= 0
-        r.instance("or_else-on-statement-timestamp:" + key, ok, "or_else receiver must be statement.get_timestamp(); it is " + df.fmt_expr(recv), p.term_span(orelse))
+        if orelse is not None:
+            oc = p.term(orelse)
+            recv = df.expr_of_operand(oc[2][0])
+            ok = recv[0] == "call" and (p.term(recv[1])[1].get("def", "") + p.term(recv[1])[1].get("res", "")).find("get_timestamp") >= 0
+            r.instance("or_else-on-statement-timestamp:" + key, ok, "or_else receiver must be statement.get_timestamp(); it is " + df.fmt_expr(recv), p.term_span(orelse))
+        else:
+            r.ok("or_else-on-statement-timestamp:" + key, "explicit match on get_timestamp()", p.term_span(explicit))
         # frame field
-        e_ts = ("call", orelse)
+        use_bb = orelse if orelse is not None else explicit
+        e_ts = ("call", use_bb)
+        use_dest = p.term(use_bb)[3][0]
         n = 0
         for bb in p.live_blocks:
             for st in p.stmts(bb):
@@ -246,8 +261,12 @@ def r5(ctx, facts):
                     e = df.expr_of_operand(op)
                     # a re-sent frame may copy the field of the first frame built in the same function
                     copied = e[0] == "val" and e[1][1][-1:] == ("timestamp",) and "frame::request" in p.local_ty(e[1][0])
-                    r.instance("frame-timestamp-is-or_else-result:%s:%s%s" % (key, st[2][1][1].split("::")[-1], "(copy)" if copied else ""), e == e_ts or copied,
-                               "the `timestamp` field of %s must be the or_else result; it is %s" % (st[2][1][1], df.fmt_expr(e)), p.stmt_span(st))
+                    good = e == e_ts or copied
+                    if not good and explicit is not None:
+                        locs = backward_slice(p, op)[0]
+                        good = use_dest in locs and any(gc.dest[0] in locs for gc in gts)
+                    r.instance("frame-timestamp-is-or_else-result:%s:%s%s" % (key, st[2][1][1].split("::")[-1], "(copy)" if copied else ""), good,
+                               "the `timestamp` field of %s must be the statement's timestamp or, failing that, the generator's; it is %s" % (st[2][1][1], df.fmt_expr(e)), p.stmt_span(st))
         if n == 0:
             r.fail("frame-timestamp:" + key, "no frame aggregate with a `timestamp` field found next to the fallback", p.span)
 
